@@ -2203,11 +2203,12 @@ class StridedInterval:
             k = (ret._upper_bound - ret._lower_bound) // ret._stride
             ret._upper_bound = ret._stride * k + ret._lower_bound
         else:
+            # All members agree on the low `tok` bits (the upper bound need not be a member)
             ret = StridedInterval(
                 bits=tok,
                 stride=0,
                 lower_bound=(self.lower_bound & ((2**tok) - 1)),
-                upper_bound=(self.upper_bound & ((2**tok) - 1)),
+                upper_bound=(self.lower_bound & ((2**tok) - 1)),
             )
         return ret
 
